@@ -25,6 +25,8 @@ PadOK(k) == (Unpadded(k) + Pad(k)) % W = 0 /\ Pad(k) \in 0..(W - 1)
 \* (8*|K| = 2^16 at |K| = 8192, 2^24 at |K| = 2097152): the header of the encoded key is 3, 4, 5 bytes long
 Window   == (0..MaxKey) \cup (8000..8600) \cup (2096900..2097500)
 Boundary == {k \in Window : Unpadded(k) % W = 0}
+\* the key lengths at which the length header of the encoded key grows by a byte (first length with the longer header)
+HeaderSteps == {k \in Window \ {0} : LeftEnc(8 * k) # LeftEnc(8 * (k - 1))}
 HeaderGrows == \A k \in Window : LeftEnc(8 * k) = (IF 8 * k < 256 THEN 2 ELSE IF 8 * k < 65536 THEN 3 ELSE IF 8 * k < 16777216 THEN 4 ELSE 5)
 
 VARIABLE key
@@ -32,5 +34,5 @@ Init == key \in Window
 Next == UNCHANGED key
 Spec == Init /\ [][Next]_key
 Holds == PadOK(key) /\ (key = 0 => HeaderGrows)
-Emit == key = 0 => PrintT(<<"CASE", ToJson([boundary |-> Boundary])>>)
+Emit == key = 0 => PrintT(<<"CASE", ToJson([boundary |-> Boundary, steps |-> HeaderSteps])>>)
 =============================================================================
